@@ -62,6 +62,8 @@ Definition bad_control (v13 : bool) (me : ep) (m : msg) : option Z :=
   | MCV _ => Some 10
   | MFin _ => Some 10
   | MUnexp => Some 10
+  | MKUx _ => Some 10             (* not aligned with a record boundary: refused before it is parsed *)
+  | MFinx _ => Some 10
   | MAlert _ _ => None
   end.
 
